@@ -37,7 +37,7 @@ ASSUMPTIONS = [
     "table.py is loaded through an AST pass that makes the name set in _get_regexp_indices an NDSet (all iteration orders)",
 ]
 BOUNDS = {
-    "quick": "every index column over {a,b,c} (up to renaming) with 0..3 rows plus two 4-row tables; every selector of the generated family (positions, lists, all masks, 14 regex forms, name spans, 4 value-range forms with symbolic bounds); "
+    "quick": "every index column over {a,b,c} (up to renaming) with 0..3 rows plus three 4-row tables, and four tables derived as t0 + u after name lookups on t0; every selector of the generated family (positions, lists, all masks, 14 regex forms, name spans, 4 value-range forms with symbolic bounds); "
              "composition law for every pair (s1 any form, s2 from a 9-element subset)",
     "thorough": "0..5 rows, composition for all pairs",
 }
@@ -245,6 +245,26 @@ def run_case(ex, case):
     names = case["pattern"]
     n = len(names)
     t, data = make_table(ex, xd, names)
+    if case.get("derived"):
+        # the table under test is t0 + u, built after a name lookup has been made on t0
+        k = case["derived"]
+        t0, d0 = make_table(ex, xd, names[:k])
+        u_names = names[k:]
+        nu = len(u_names)
+        ud = {"name": np.array(u_names, dtype=object) if nu else np.array([], dtype=object),
+              "s": np.array([ex.int(f"us{i}") for i in range(nu)], dtype=object),
+              "w": np.array([ex.int(f"uw{i}") for i in range(nu)], dtype=object)}
+        u = xd.Table(ud, index="name")
+        for warm in ("a::0", ".*::-1"):
+            try:
+                t0.rows[warm]
+                t0["w", names[0]] if k else None
+            except (KeyError, IndexError):
+                pass
+        t = t0 + u
+        data = {c: np.concatenate([d0[c], ud[c]]) for c in ("name", "s", "w")}
+        names = list(data["name"])
+        n = len(names)
     sym = {"lo": ex.int("lo"), "hi": ex.int("hi")}
     sels = selectors(ex, names, sym)
     i1 = case["s1"]
@@ -342,10 +362,16 @@ def cases(tier):
                 pats.append(list(pat))
     if tier == "quick":
         pats += [["a", "b", "a", "b"], ["b", "a", "a", "c"], ["a", "a", "b", "a"]]
+    derived = [(["a", "b", "a"], 2), (["a", "b", "c", "a"], 2), (["a", "a", "b", "c"], 3), (["b", "a", "b"], 1)]
     for pat in pats:
         n = len(pat)
         nsel = 2 * n + 5 + (2 ** n if n else 0) + 3 + 20 + 9 + 6
         for s1 in range(nsel):
             out.append({"pattern": pat, "s1": s1, "s2list": S2_QUICK if tier == "quick" else None,
                         "compose": n <= 3 or tier != "quick"})
+    for pat, k in derived:
+        n = len(pat)
+        nsel = 2 * n + 5 + 2 ** n + 3 + 20 + 9 + 6
+        for s1 in range(nsel):
+            out.append({"pattern": pat, "derived": k, "s1": s1, "s2list": S2_QUICK, "compose": False})
     return out
